@@ -116,7 +116,7 @@ theorem materialize_good (σ : Leaves) (st : Store) (fuel : Nat) (t : Rel) (name
             injection h with h; subst h
             have gM : Good σ (Rel.mat 0 name (ct.get t)) :=
               Good.atom _ rfl C.ok.wf C.ok.truthful (by show (ct.get t).engine.kind = _; rw [C.engine]; exact hk)
-            obtain ⟨gW, W⟩ := good_wrap σ _ r gM rfl ha
+            obtain ⟨gW, W⟩ := good_wrap σ _ r gM rfl rfl ha
             show Good σ r ∧ sem σ r = _ ∧ (∀ c, c ∈ r.columns ↔ _) ∧ r.engine = _
             exact ⟨gW, by rw [W.sem_eq]; exact C.sem_eq, fun c => (W.cols c).trans (C.cols c),
               by rw [W.engine]; exact C.engine⟩
